@@ -74,6 +74,10 @@ def vote_spec(copies):
     return bytes(out), status
 
 
+ROOT_NAMES = ['r%d', 'r%d', 'mirror-$HOME-%d', 'rep ${PATH} %d', '~rep%d', 'r\xe9plica %d', '%%TEMP%%%d', 'r%d']
+_RUNS = [0]
+
+
 def run_impl(replicas, dirs, via):
     """replicas: list of {relpath: bytes}; dirs: list of lists of extra (possibly empty) directories.
     Returns the observables of one `pff dup` run."""
@@ -83,7 +87,10 @@ def run_impl(replicas, dirs, via):
     try:
         ins = []
         for i, r in enumerate(replicas):
-            root = os.path.join(d, 'r%d' % i)
+            # replica folders under ordinary and under shell-looking names ($VAR, ${VAR}, ~, %VAR%: ordinary characters of a folder name
+            # once the shell has handed the argument over)
+            _RUNS[0] += 1
+            root = os.path.join(d, ROOT_NAMES[(i + _RUNS[0]) % len(ROOT_NAMES)] % i)
             make_tree(root, r, dirs[i] if dirs else ())
             ins.append(root)
         out = os.path.join(d, 'out')
